@@ -43,6 +43,10 @@ func NewDictPattern(entries ...DictPatternEntry) DictPattern {
 
 func (p DictPattern) Bind(ctx context.Context, local Scope, value Value) (context.Context, Scope, error) {
 	dict, is := value.(Dict)
+	if _, empty := value.(EmptySet); empty {
+		// The empty set is the empty dict: optional entries and ... can still match it.
+		dict, is = Dict{}, true
+	}
 	if !is {
 		return ctx, EmptyScope, fmt.Errorf("%s is not a dict", value)
 	}
